@@ -167,14 +167,25 @@ func (g *gen) run() {
 			g.govOp(m)
 		case k < 58:
 			g.unbondOp(m)
-		case k < 62:
+		case k < 61:
 			g.randomConfirm(m)
+		case k < 62:
+			if ss := g.view(m).Sets; len(ss) > 0 {
+				g.do(Op{K: "observeset", M: m, N: ss[len(ss)-1-r.Intn((len(ss)+1)/2)].N})
+				g.run_.rep.Count("oracle-set-observed")
+			}
 		case k < 66:
 			g.do(Op{K: "addbatch", M: m})
 		case k < 69:
 			// the oldest or a random live batch is executed on the external chain
 			if bs := g.view(m).Batches; len(bs) > 0 {
 				g.do(Op{K: "execbatch", M: m, N: bs[r.Intn(len(bs))].N})
+			}
+		case k < 70 && r.Chance(50):
+			// the external chain adopts one of the stored oracle sets (pruning of older ones becomes possible)
+			if ss := g.view(m).Sets; len(ss) > 0 {
+				g.do(Op{K: "observeset", M: m, N: ss[len(ss)-1-r.Intn((len(ss)+1)/2)].N})
+				g.run_.rep.Count("oracle-set-observed")
 			}
 		case k < 70:
 			g.do(Op{K: "exportimport", M: m})
